@@ -71,7 +71,8 @@ VF_TRACE_LIST(VF_TR_DECL)
 
 /* ---- pointer helpers ------------------------------------------------------------------------ */
 #define SAME(p, q)        __CPROVER_same_object((p), (q))
-#define OFF(p)            __CPROVER_POINTER_OFFSET(p)
+/* signed: __CPROVER_POINTER_OFFSET is unsigned in CBMC 6.11, so differences of offsets would wrap and inequalities over them would be weaker than they read */
+#define OFF(p)            ((long)__CPROVER_POINTER_OFFSET(p))
 #define FRESH(p, n)       __CPROVER_is_fresh((p), (n))
 #define FRESH_ARR(p, cnt) __CPROVER_is_fresh((p), (cnt) * sizeof(*(p)))
 
